@@ -155,11 +155,12 @@ func ParseResponse(data []byte, req *http.Request) (resp *Response, err error) {
 		return nil, errors.Join(errInvalidResponse, fmt.Errorf("failed to read response body: %w", err))
 	}
 	r.Body = io.NopCloser(bytes.NewReader(body))
-	// The serialised form may carry connection-level fields that belong to the
-	// dump, not to the stored response (DumpResponse writes "Connection: close"
-	// for a close-delimited HTTP/1.0 response); hop-by-hop fields are never
-	// replayed (RFC 9111 §3.1).
-	removeHopByHopHeaders(r)
+	// The serialised form may carry a Connection field that belongs to the dump,
+	// not to the stored response (DumpResponse writes "Connection: close" for an
+	// HTTP/1.0 response). Only that line is dropped: the hop-by-hop fields of the
+	// origin's response were removed before it was stored, and "close" is a
+	// connection option, not the name of a field to remove.
+	r.Header.Del("Connection")
 	resp.Data = r
 	return resp, nil
 }
